@@ -19,7 +19,7 @@ import functools
 import itertools
 
 from warnings import warn
-from collections import deque
+from collections import Counter, deque
 from typing import Any, Callable, Dict, Iterator, List, Mapping, Optional, Tuple, TextIO, Union, cast
 
 import pysmt
@@ -92,15 +92,36 @@ class SmtLibExecutionCache(object):
         self.keys: Dict[str, List[Union[str, Callable, PySMTType, FNode, _TypeDecl]]] = {}
         self.definitions: Dict[str, Tuple[List[Union[Any, FNode]], Union[PySMTType, FNode, PartialType, str]]] = {}
         self.annotations = Annotations()
+        # Names bound and unbound since the last checkpoint
+        self._bound: List[str] = []
+        self._unbound: List[str] = []
 
     def bind(self, name: str, value: Union[str, Callable, PySMTType, FNode, _TypeDecl]):
         """Binds a symbol in this environment"""
         lst = self.keys.setdefault(name, [])
         lst.append(value)
+        self._bound.append(name)
 
     def unbind(self, name: str):
         """Unbinds the last binding of this symbol"""
         self.keys[name].pop()
+        self._unbound.append(name)
+
+    def checkpoint(self):
+        """Keeps the bindings made so far"""
+        self._bound = []
+        self._unbound = []
+
+    def rollback(self):
+        """Removes the bindings made since the last checkpoint that are
+        still in place (e.g., the variables of a let, of a quantifier
+        or of a definition whose body could not be read)"""
+        pending = Counter(self._bound)
+        pending.subtract(self._unbound)
+        for name, count in pending.items():
+            for _ in range(count):
+                self.keys[name].pop()
+        self.checkpoint()
 
     def define(self, name: str, parameters: List[FNode], expression: Union[PySMTType, FNode, PartialType, str]):
         self.definitions[name] = (parameters, expression)
@@ -1221,7 +1242,14 @@ class SmtLibParser(object):
             current = tokens.consume()
             if current in self.commands:
                 fun = self.commands[current]
-                yield fun(current, tokens)
+                self.cache.checkpoint()
+                try:
+                    cmd = fun(current, tokens)
+                except Exception:
+                    # A command that fails leaves no binding behind
+                    self.cache.rollback()
+                    raise
+                yield cmd
             else:
                 raise UnknownSmtLibCommandError(current)
 
